@@ -62,6 +62,10 @@ def shard(args):
         r = grammar.Rng(seed * 7919 + i)
         kind, ops = oracle.schedules(ex, r, r.pick(['seq', 'pipelined', 'coalesced', 'random']))
         cfg = {'PERSONALITY': r.randrange(10), 'URLENC_PARSER': 1, 'MULTIPART_PARSER': 1, 'AUTO_DESTROY': 1 if r.chance(0.15) else 0}
+        if r.chance(0.25):
+            # a soft field limit below the length of ordinary lines (documented as a warning threshold; it must not make the parse
+            # depend on whether a line happened to be buffered), hard limit left at its default
+            cfg.update(FIELD_SOFT=r.pick([8, 24, 64]), FIELD_HARD=18000)
         cases.append((i, cfg, ops))
         for f in ex['feats']:
             feats[f] = feats.get(f, 0) + 1
